@@ -324,6 +324,12 @@ def main(argv):
                 del algebra.ALIAS_BREAKS[:]
             else:
                 algebra.report_purity(rep)
+        except Exception:  # noqa: BLE001
+            # the comparison itself could not be carried out on this tree (the implementation
+            # raised somewhere the harness has no expectation for): the correspondence is broken
+            import traceback
+            tb = traceback.format_exc()
+            broken.append({'relation': 'correspondence-run-aborted', 'detail': tb[-1800:]})
         finally:
             if hasattr(mod, 'cleanup'):
                 mod.cleanup(ctx)
